@@ -290,7 +290,11 @@ class HTTP1Connection(httputil.HTTPConnection):
                 await self._finish_future
             if self.is_client and self._disconnect_on_finish:
                 self.close()
-            if self.stream is None:
+            if self.stream is None or self.stream.closed():
+                # The result is documented to be true only if the stream is
+                # still open. In particular the server must not go on to
+                # process pipelined requests that happen to be buffered
+                # already after it has closed the connection.
                 return False
         except httputil.HTTPInputError as e:
             gen_log.info("Malformed HTTP message from %s: %s", self.context, e)
